@@ -808,6 +808,10 @@ class Tamper(Job):
                 for s in r["reads"][k:]:
                     if not (s and s[0] == ("err", "ConnectionClosed")):
                         return "[%s] %s: pending read did not fail: %r" % (how, desc, s)
+            if self.mode != "reads" and r["dropped"]:
+                total = sum(self.lens)
+                if total and sum(len(p) for p in r["pts"][:r["idx"]]) < total and not (r["reads"][0] and r["reads"][0][0][0] == "err"):
+                    return "[%s] %s: the connection is gone but the pending consumer (writeToFile) Deferred did not fail: %r" % (how, desc, r["reads"][0])
         return None
 
 
